@@ -76,6 +76,8 @@ class C08(Prop):
             "again": st.booleans(),
             "eof": st.sampled_from(["after_pause", "at_once", "never"]),
             "seg": gen.segmentation(),
+            # None and 0 both DISABLE the close timeout (documented); 30 s is far beyond these histories
+            "close_timeout": st.sampled_from([None, None, 0, 30.0]),
         })
 
     def run_case(self, case):
@@ -126,10 +128,10 @@ class C08(Prop):
         elif eof == "at_once":
             script.append(["eof", 0.0])
         scn = build.scenario(script, reactions=reactions, horizon=500.0,
-                             connect_opts={"close_timeout": None, "ping_rate": 0})
+                             connect_opts={"close_timeout": case.get("close_timeout"), "ping_rate": 0})
         tr = simnet.run_scenario(scn)
         names = tr.names()
-        labels = {"mode:" + mode, "eof:" + eof}
+        labels = {"mode:" + mode, "eof:" + eof, "close_timeout:%r" % (case.get("close_timeout"),)}
         if tr.hang or tr.horizon:
             return failed("hang", "%s; events %s" % (tr.hang or "did not end by itself (horizon reached)", names[-10:]),
                           labels, True)
